@@ -1162,6 +1162,16 @@ def bounding_box_in_pixel_domain(
     # offset of ``geobox`` in ``reference`` pixels
     tx, ty = pixel_translation(geobox, reference).xy
 
+    # offset is a difference of world coordinates expressed in pixels: it can not be known
+    # better than float64 resolution of those (cm pixels at UTM northings: 6e8 px -> 1e-7 px)
+    _inv = ~reference.affine
+    tol = max(
+        tol,
+        4
+        * numpy.finfo("float64").eps
+        * max(abs(_inv.c), abs(_inv.f), abs(tx), abs(ty)),
+    )
+
     if not (is_almost_int(tx, tol) and is_almost_int(ty, tol)):
         raise ValueError("Incompatible grids")
 
